@@ -3,6 +3,8 @@ use crate::common::Args;
 pub mod c02;
 pub mod c03;
 pub mod c06;
+pub mod c11;
+pub mod c11_l2;
 pub mod c14;
 pub mod c14_extra;
 
@@ -11,6 +13,7 @@ pub fn dispatch(args: &Args) -> i32 {
         "C02" => c02::run(args),
         "C03" => c03::run(args),
         "C06" => c06::run(args),
+        "C11" => c11::run(args),
         "C14" => c14::run(args),
         other => {
             eprintln!("unknown property id {:?}", other);
